@@ -246,7 +246,7 @@ const LENSES: &[&str] = &["D10"];
 /// parts of the statements that still apply must hold - the written expression is evaluated
 /// exactly once at creation (C11) and an element without children gets `null` (C02).
 pub fn misuse_case(jsx: &str, leaf: Option<&str>, children_null: bool) -> Case {
-    let src = format!("import {{ C1, sl1, x }} from \"env\";\nexport const e0 = {jsx};\n");
+    let src = format!("import {{ C1, sl1, x }} from \"env\";\nlet m = 1;\nexport const e0 = {jsx};\n");
     let mut case = Case::new(src, "jsx", Some("{}".into()));
     use crate::gen::jsx::*;
     let env = Env {
